@@ -538,6 +538,87 @@ pub fn run(tier: Tier) -> Run {
             run.add_all(st.viols);
         }
     }
+    // ---- two live Loaders on one thread, fed alternately instruction by instruction (every ordered pair of 14 streams), and a
+    //      Loader moved to another thread while a block is open: each ends up exactly as if it had been fed alone
+    {
+        let streams: Vec<Vec<&str>> = vec![
+            vec!["Capability", "MemoryModel"],
+            vec!["Function", "Label", "IAdd", "Return", "FunctionEnd"],
+            vec!["Function", "Label", "IAdd", "IAdd", "Return", "Label", "Return", "FunctionEnd"],
+            vec!["Function", "FunctionParameter", "Label", "Undef", "Return", "FunctionEnd"],
+            vec!["TypeVoid", "Function", "Label", "Variable", "Line", "IAdd", "Return", "FunctionEnd", "Function", "FunctionEnd"],
+            vec!["Function", "Label", "IAdd"],
+            vec!["Function", "Label"],
+            vec!["Function"],
+            vec!["Label"],
+            vec!["Function", "Label", "Return", "IAdd"],
+            vec!["Name", "Decorate", "TypeVoid", "ConstantTrue", "Variable"],
+            vec!["Function", "Label", "Line", "Return", "FunctionEnd", "Line"],
+            vec![],
+            vec!["Function", "Label", "IAdd", "Return", "FunctionEnd", "Function", "Label", "IAdd", "Return", "FunctionEnd"],
+        ];
+        let insts: Vec<Vec<Inst>> = streams.iter().enumerate().map(|(si, v)| v.iter().enumerate().map(|(k, n)| rep_inst(n, 10 * si + k)).collect()).collect();
+        let feed_alone = |v: &Vec<Inst>| -> (Vec<bool>, crate::bsys::Snap) {
+            let mut l = dr::Loader::new();
+            let r: Vec<bool> = v.iter().map(|i| matches!(l.consume_instruction(model::to_dr(i).unwrap()), rspirv::binary::ParseAction::Continue)).collect();
+            (r, crate::bsys::snap(&l.module()))
+        };
+        let alone: Vec<(Vec<bool>, crate::bsys::Snap)> = insts.iter().map(feed_alone).collect();
+        let mut n = 0u64;
+        for a in 0..insts.len() {
+            for b in 0..insts.len() {
+                n += 1;
+                let r = guarded(|| {
+                    let (mut la, mut lb) = (dr::Loader::new(), dr::Loader::new());
+                    let (mut ra, mut rb) = (vec![], vec![]);
+                    for k in 0..insts[a].len().max(insts[b].len()) {
+                        if let Some(i) = insts[a].get(k) {
+                            ra.push(matches!(la.consume_instruction(model::to_dr(i).unwrap()), rspirv::binary::ParseAction::Continue));
+                        }
+                        if let Some(i) = insts[b].get(k) {
+                            rb.push(matches!(lb.consume_instruction(model::to_dr(i).unwrap()), rspirv::binary::ParseAction::Continue));
+                        }
+                    }
+                    ((ra, crate::bsys::snap(&la.module())), (rb, crate::bsys::snap(&lb.module())))
+                });
+                match r {
+                    Err(p) => run.add(viol(format!("C05:panic@{}:two-loaders", crate::report::panic_class(&p)), format!("two Loaders fed alternately (streams {:?} and {:?}) panic: {}", streams[a], streams[b], p), json!({"kind": "c05-two-loaders", "a": streams[a], "b": streams[b]}))),
+                    Ok((ga, gb)) => {
+                        if ga != alone[a] || gb != alone[b] {
+                            run.add(viol("C05:two-loaders", format!("two Loaders fed alternately on one thread (streams {:?} and {:?}): {} differs from what that stream gives a Loader of its own", streams[a], streams[b], if ga != alone[a] { "the first" } else { "the second" }), json!({"kind": "c05-two-loaders", "a": streams[a], "b": streams[b]})));
+                        }
+                    }
+                }
+            }
+            // moved to another thread after every prefix
+            for cut in 0..=insts[a].len() {
+                n += 1;
+                let v = insts[a].clone();
+                let r = guarded(|| {
+                    let mut l = dr::Loader::new();
+                    let mut r: Vec<bool> = vec![];
+                    for i in &v[..cut] {
+                        r.push(matches!(l.consume_instruction(model::to_dr(i).unwrap()), rspirv::binary::ParseAction::Continue));
+                    }
+                    let rest = v[cut..].to_vec();
+                    let (l, r2) = std::thread::spawn(move || {
+                        let mut l = l;
+                        let r2: Vec<bool> = rest.iter().map(|i| matches!(l.consume_instruction(model::to_dr(i).unwrap()), rspirv::binary::ParseAction::Continue)).collect();
+                        (l, r2)
+                    })
+                    .join()
+                    .map_err(|_| "the thread panicked".to_string())?;
+                    r.extend(r2);
+                    Ok::<_, String>((r, crate::bsys::snap(&l.module())))
+                });
+                match r {
+                    Ok(Ok(g)) if g == alone[a] => {}
+                    other => run.add(viol("C05:loader-moved-between-threads", format!("a Loader fed {} instructions of {:?}, moved to another thread and fed the rest differs from one fed on a single thread ({})", cut, streams[a], match other { Err(p) => p, Ok(Err(e)) => e, _ => "module or answers differ".into() }), json!({"kind": "c05-loader-moved", "stream": streams[a], "cut": cut}))),
+                }
+            }
+        }
+        run.outcome("two_loader_interleavings_and_thread_moves", n);
+    }
     run.add_all(fstruct.0.viols.clone());
     run.add_all(fstruct.1.viols.clone());
     run.outcome("function_structure_sequences", fstruct.0.histories_replayed + fstruct.1.histories_replayed);
